@@ -91,6 +91,7 @@ _BUILTIN_NAMES = {
     'genvslite',
     'install_umask',
     'layout',
+    'namingscheme',
     'optimization',
     'prefer_static',
     'stdsplit',
